@@ -525,6 +525,11 @@ def str_method(I, s, name, args, kwargs):
         h = I.env.str_models.get(name)
         if h is not None:
             return h(I, s, *args, **kwargs)
+    if name == 'splitlines' and not args and not kwargs:
+        _axiom("str.splitlines(): a list of strings, empty iff the string is empty (contents unconstrained)")
+        r = I.fresh_term('splitlines', smt.SeqS(STR), False)
+        I.assume(smt.Eq(smt.Eq(smt.SeqLen(r), smt.IntC(0)), smt.Eq(st, smt.StrC(''))))
+        return I.alloc_list(SSeqV(r, ('str',)))
     raise Unsupported('str method %s on symbolic string' % name)
 
 
